@@ -43,7 +43,7 @@ import (
 var stateAnchors = func() map[string][][3]string {
 	gb := [][3]string{{"io/genbank", "", "Parse"}, {"io/genbank", "", "ParseMulti"}, {"io/genbank", "", "ParseFlat"}, {"io/genbank", "", "Build"}, {"io/genbank", "", "BuildMulti"}, {"", "Sequence", "AddFeature"}, {"", "Feature", "GetSequence"}}
 	sh := [][3]string{{"seqhash", "", "Hash"}, {"seqhash", "", "RotateSequence"}}
-	cd := [][3]string{{"transform/codon", "", "Translate"}, {"transform/codon", "", "Optimize"}, {"transform/codon", "Table", "OptimizeTable"}, {"transform/codon", "", "GetCodonTable"}, {"transform/codon", "", "AddCodonTable"}, {"transform/codon", "", "CompromiseCodonTable"}}
+	cd := [][3]string{{"transform/codon", "", "Translate"}, {"transform/codon", "", "Optimize"}, {"transform/codon", "Table", "OptimizeTable"}, {"transform/codon", "", "GetCodonTable"}, {"transform/codon", "", "AddCodonTable"}, {"transform/codon", "", "CompromiseCodonTable"}, {"transform/codon", "", "ParseCodonJSON"}, {"transform/codon", "", "ReadCodonJSON"}, {"transform/codon", "", "WriteCodonJSON"}}
 	cl := [][3]string{{"clone", "", "CircularLigate"}, {"clone", "", "GoldenGate"}, {"clone", "", "CutWithEnzyme"}, {"clone", "", "CutWithEnzymeByName"}}
 	pr := [][3]string{{"primers", "", "NucleobaseDeBruijnSequence"}, {"primers", "", "CreateBarcodes"}, {"primers", "", "CreateBarcodesWithBannedSequences"}}
 	tm := [][3]string{{"primers", "", "SantaLucia"}, {"primers", "", "MarmurDoty"}, {"primers", "", "MeltingTemp"}}
@@ -664,6 +664,8 @@ func stateRules(c *Ctx) {
 		readLinePrefixIgnored(c, g, short1)
 		flushWithoutReset(c, g, short1)
 		goSharedMap(c, g, short1)
+		// ---- a decoder pointed at memory shared with package state
+		decodeIntoShared(c, g, short1)
 	}
 	// parsers that link features to a local Sequence (shared by C01, C14, C15)
 	switch c.Prop {
@@ -3374,6 +3376,58 @@ func goSharedMap(c *Ctx, g *ssa.Function, short1 string) {
 			})
 			if upd != nil {
 				c.bad("STATE", "go-shared-write:"+short1+"."+h.Params[k].Name(), upd.Pos(), fmt.Sprintf("%s starts several goroutines on %s with the same map (%s), and that function updates the map without a lock: concurrent map writes, and each goroutine's decisions depend on what its siblings have entered so far", short1, fname(h), h.Params[k].Name()))
+				return
+			}
+		}
+	})
+}
+
+// decodeIntoShared: a decoder is pointed at a variable that was first filled with a value sharing memory with
+// package-level state (a default table handed out by value: the slice headers are copies, the arrays are
+// not). encoding/json and encoding/xml reuse the slices they find, so decoding writes the package-level
+// arrays and every later user of that default sees the decoded data.
+func decodeIntoShared(c *Ctx, g *ssa.Function, short1 string) {
+	var ro map[*ssa.Function]origin
+	eachInstr(g, func(i ssa.Instruction) {
+		ci, ok := i.(ssa.CallInstruction)
+		if !ok {
+			return
+		}
+		n := calleeName(ci)
+		arg := -1
+		switch n {
+		case "encoding/json.Unmarshal", "encoding/xml.Unmarshal":
+			arg = 1
+		case "(*encoding/json.Decoder).Decode", "(*encoding/xml.Decoder).Decode":
+			arg = 1
+		}
+		if arg < 0 || arg >= len(ci.Common().Args) {
+			return
+		}
+		a, isA := unwrap(ci.Common().Args[arg]).(*ssa.Alloc)
+		if !isA || a.Referrers() == nil {
+			return
+		}
+		if ro == nil {
+			var fs []*ssa.Function
+			for _, f := range funcsSorted(reachable(g)) {
+				if inModule(f) && f.Blocks != nil {
+					fs = append(fs, f)
+				}
+			}
+			ro = returnOrigins(fs)
+		}
+		oa := newOriginAnalysis(g, func(h *ssa.Function) origin { return ro[h] })
+		for _, r := range *a.Referrers() {
+			st, isSt := r.(*ssa.Store)
+			if !isSt || st.Addr != ssa.Value(a) || !domInstr(st, ci.(ssa.Instruction)) {
+				continue
+			}
+			if !hasRefs(st.Val.Type()) {
+				continue
+			}
+			if o := oa.of(st.Val); o&oGlobal != 0 {
+				c.bad("STATE", "decode-into-shared:"+short1, ci.Pos(), fmt.Sprintf("%s decodes into a variable that was first set to a value sharing its slices with package-level state (at %s): the decoder reuses the arrays it finds, so the decoded data is written into the package-level table and stays there for every later caller", short1, c.W.pos(st.Pos())))
 				return
 			}
 		}
